@@ -1,3 +1,914 @@
 package main
 
-func runFacts(repo, outdir string) error { return nil }
+// T1 — fact extractor. Parses the repository's current source with go/parser and
+// regenerates lean/RaftWal/Generated/*.lean. Only data and straight-line code
+// are read (constants, byte layouts, call orders, metric call sites). When a
+// function no longer has the shape understood here the extractor fails loudly
+// (the tie is reported broken); it never guesses.
+
+import (
+	"bytes"
+	"encoding/json"
+	"fmt"
+	"go/ast"
+	"go/parser"
+	"go/printer"
+	"go/token"
+	"os"
+	"path/filepath"
+	"sort"
+	"strconv"
+	"strings"
+)
+
+type factPkg struct {
+	fset  *token.FileSet
+	files map[string]*ast.File // file base name -> AST
+	dir   string
+}
+
+func loadPkg(dir string) (*factPkg, error) {
+	fset := token.NewFileSet()
+	ents, err := os.ReadDir(dir)
+	if err != nil {
+		return nil, err
+	}
+	p := &factPkg{fset: fset, files: map[string]*ast.File{}, dir: dir}
+	for _, e := range ents {
+		n := e.Name()
+		if e.IsDir() || !strings.HasSuffix(n, ".go") || strings.HasSuffix(n, "_test.go") {
+			continue
+		}
+		f, err := parser.ParseFile(fset, filepath.Join(dir, n), nil, parser.ParseComments)
+		if err != nil {
+			return nil, err
+		}
+		// skip files guarded by the verif build tag being *off* duplicates (verif_noyield.go)
+		if hasBuildTag(f, "!verif") {
+			continue
+		}
+		p.files[n] = f
+	}
+	return p, nil
+}
+
+func hasBuildTag(f *ast.File, tag string) bool {
+	for _, cg := range f.Comments {
+		if cg.Pos() > f.Package {
+			break
+		}
+		for _, c := range cg.List {
+			if strings.HasPrefix(c.Text, "//go:build") && strings.TrimSpace(strings.TrimPrefix(c.Text, "//go:build")) == tag {
+				return true
+			}
+		}
+	}
+	return false
+}
+
+func (p *factPkg) fn(recv, name string) (*ast.FuncDecl, error) {
+	for _, f := range p.files {
+		for _, d := range f.Decls {
+			fd, ok := d.(*ast.FuncDecl)
+			if !ok || fd.Name.Name != name {
+				continue
+			}
+			r := ""
+			if fd.Recv != nil && len(fd.Recv.List) == 1 {
+				t := fd.Recv.List[0].Type
+				if s, ok := t.(*ast.StarExpr); ok {
+					t = s.X
+				}
+				if id, ok := t.(*ast.Ident); ok {
+					r = id.Name
+				}
+			}
+			if r == recv {
+				return fd, nil
+			}
+		}
+	}
+	return nil, fmt.Errorf("function %s.%s not found in %s", recv, name, p.dir)
+}
+
+func (p *factPkg) src(n ast.Node) string {
+	var b bytes.Buffer
+	printer.Fprint(&b, p.fset, n)
+	return b.String()
+}
+
+// constants: evaluates integer/string constant declarations (with iota) of the package.
+type constEnv struct {
+	ints map[string]uint64
+	strs map[string]string
+}
+
+func (p *factPkg) consts() *constEnv {
+	env := &constEnv{ints: map[string]uint64{}, strs: map[string]string{}}
+	names := make([]string, 0, len(p.files))
+	for n := range p.files {
+		names = append(names, n)
+	}
+	sort.Strings(names)
+	for pass := 0; pass < 3; pass++ {
+		for _, n := range names {
+			for _, d := range p.files[n].Decls {
+				gd, ok := d.(*ast.GenDecl)
+				if !ok || (gd.Tok != token.CONST && gd.Tok != token.VAR) {
+					continue
+				}
+				var lastExprs []ast.Expr
+				for i, s := range gd.Specs {
+					vs := s.(*ast.ValueSpec)
+					exprs := vs.Values
+					if len(exprs) == 0 && gd.Tok == token.CONST {
+						exprs = lastExprs
+					} else {
+						lastExprs = exprs
+					}
+					for j, id := range vs.Names {
+						if j >= len(exprs) {
+							continue
+						}
+						if v, ok := env.evalInt(exprs[j], uint64(i)); ok {
+							env.ints[id.Name] = v
+						} else if sv, ok := env.evalStr(exprs[j]); ok {
+							env.strs[id.Name] = sv
+						}
+					}
+				}
+			}
+		}
+	}
+	return env
+}
+
+func (e *constEnv) evalInt(x ast.Expr, iota uint64) (uint64, bool) {
+	switch x := x.(type) {
+	case *ast.BasicLit:
+		if x.Kind == token.INT {
+			v, err := strconv.ParseUint(strings.ReplaceAll(x.Value, "_", ""), 0, 64)
+			return v, err == nil
+		}
+	case *ast.Ident:
+		if x.Name == "iota" {
+			return iota, true
+		}
+		v, ok := e.ints[x.Name]
+		return v, ok
+	case *ast.ParenExpr:
+		return e.evalInt(x.X, iota)
+	case *ast.CallExpr: // conversions like uint64(x)
+		if len(x.Args) == 1 {
+			if id, ok := x.Fun.(*ast.Ident); ok && strings.HasPrefix(id.Name, "uint") || ok && strings.HasPrefix(id.Name, "int") {
+				return e.evalInt(x.Args[0], iota)
+			}
+		}
+	case *ast.BinaryExpr:
+		a, ok1 := e.evalInt(x.X, iota)
+		b, ok2 := e.evalInt(x.Y, iota)
+		if !ok1 || !ok2 {
+			return 0, false
+		}
+		switch x.Op {
+		case token.ADD:
+			return a + b, true
+		case token.SUB:
+			return a - b, true
+		case token.MUL:
+			return a * b, true
+		case token.SHL:
+			return a << b, true
+		case token.QUO:
+			if b != 0 {
+				return a / b, true
+			}
+		}
+	}
+	return 0, false
+}
+
+func (e *constEnv) evalStr(x ast.Expr) (string, bool) {
+	switch x := x.(type) {
+	case *ast.BasicLit:
+		if x.Kind == token.STRING {
+			s, err := strconv.Unquote(x.Value)
+			return s, err == nil
+		}
+	case *ast.Ident:
+		s, ok := e.strs[x.Name]
+		return s, ok
+	case *ast.BinaryExpr:
+		if x.Op == token.ADD {
+			a, ok1 := e.evalStr(x.X)
+			b, ok2 := e.evalStr(x.Y)
+			return a + b, ok1 && ok2
+		}
+	}
+	return "", false
+}
+
+func leanStr(s string) string { return strconv.Quote(s) }
+
+type leanFile struct {
+	name string
+	b    strings.Builder
+}
+
+func newLean(name, from string, imports ...string) *leanFile {
+	l := &leanFile{name: name}
+	fmt.Fprintf(&l.b, "-- GENERATED by `harness facts` from %s — do not edit.\n", from)
+	for _, i := range imports {
+		fmt.Fprintf(&l.b, "import %s\n", i)
+	}
+	fmt.Fprintf(&l.b, "namespace RaftWal.Generated\n\n")
+	return l
+}
+
+func (l *leanFile) defNat(name string, v uint64, doc string) {
+	fmt.Fprintf(&l.b, "/-- %s -/\ndef %s : Nat := %d\n\n", doc, name, v)
+}
+func (l *leanFile) defStr(name string, v string, doc string) {
+	fmt.Fprintf(&l.b, "/-- %s -/\ndef %s : String := %s\n\n", doc, name, leanStr(v))
+}
+func (l *leanFile) raw(s string) { l.b.WriteString(s) }
+func (l *leanFile) finish(outdir string) error {
+	l.b.WriteString("end RaftWal.Generated\n")
+	return os.WriteFile(filepath.Join(outdir, l.name), []byte(l.b.String()), 0o644)
+}
+
+func needInt(env *constEnv, pkg, name string) (uint64, error) {
+	v, ok := env.ints[name]
+	if !ok {
+		return 0, fmt.Errorf("constant %s.%s not found or not an integer constant", pkg, name)
+	}
+	return v, nil
+}
+func needStr(env *constEnv, pkg, name string) (string, error) {
+	v, ok := env.strs[name]
+	if !ok {
+		return "", fmt.Errorf("constant %s.%s not found or not a string constant", pkg, name)
+	}
+	return v, nil
+}
+
+// exprToLean translates a pure integer Go expression over the given parameter
+// names and package constants to a Lean Nat expression.
+func exprToLean(x ast.Expr, params map[string]bool, env *constEnv, calls map[string]string) (string, error) {
+	switch x := x.(type) {
+	case *ast.BasicLit:
+		if x.Kind == token.INT {
+			return x.Value, nil
+		}
+	case *ast.Ident:
+		if params[x.Name] {
+			return x.Name, nil
+		}
+		if v, ok := env.ints[x.Name]; ok {
+			return fmt.Sprint(v), nil
+		}
+	case *ast.ParenExpr:
+		s, err := exprToLean(x.X, params, env, calls)
+		return "(" + s + ")", err
+	case *ast.BinaryExpr:
+		a, err := exprToLean(x.X, params, env, calls)
+		if err != nil {
+			return "", err
+		}
+		b, err := exprToLean(x.Y, params, env, calls)
+		if err != nil {
+			return "", err
+		}
+		op := map[token.Token]string{token.ADD: "+", token.SUB: "-", token.MUL: "*", token.REM: "%", token.QUO: "/", token.AND: "&&&", token.OR: "|||", token.SHL: "<<<", token.SHR: ">>>"}[x.Op]
+		if op == "" {
+			return "", fmt.Errorf("unsupported operator %s", x.Op)
+		}
+		return "(" + a + " " + op + " " + b + ")", nil
+	case *ast.CallExpr:
+		if id, ok := x.Fun.(*ast.Ident); ok {
+			if id.Name == "int" || id.Name == "uint32" || id.Name == "uint64" {
+				if len(x.Args) == 1 {
+					return exprToLean(x.Args[0], params, env, calls)
+				}
+			}
+			if ln, ok := calls[id.Name]; ok {
+				var args []string
+				for _, a := range x.Args {
+					s, err := exprToLean(a, params, env, calls)
+					if err != nil {
+						return "", err
+					}
+					args = append(args, s)
+				}
+				return "(" + ln + " " + strings.Join(args, " ") + ")", nil
+			}
+		}
+	}
+	return "", fmt.Errorf("unsupported expression")
+}
+
+type layoutEntry struct {
+	Lo, Hi int
+	Kind   string // "le32" "le64" "byte"
+	Field  string
+}
+
+func (e layoutEntry) lean() string {
+	return fmt.Sprintf("(%d, %d, %s, %s)", e.Lo, e.Hi, leanStr(e.Kind), leanStr(e.Field))
+}
+
+func intLit(x ast.Expr, env *constEnv) (int, bool) {
+	if x == nil {
+		return 0, false
+	}
+	v, ok := env.evalInt(x, 0)
+	return int(v), ok
+}
+
+// layoutOf extracts the byte layout written/read by a function: every
+// `binary.LittleEndian.PutUintNN(buf[a:b], expr)`, `buf[i] = expr`,
+// `x = binary.LittleEndian.UintNN(buf[a:b])` and comparison `buf[i] != expr`.
+func (p *factPkg) layoutOf(fd *ast.FuncDecl, env *constEnv, bufName string) ([]layoutEntry, error) {
+	var out []layoutEntry
+	var ferr error
+	sliceRange := func(x ast.Expr) (int, int, bool) {
+		se, ok := x.(*ast.SliceExpr)
+		if !ok {
+			return 0, 0, false
+		}
+		if id, ok := se.X.(*ast.Ident); !ok || id.Name != bufName {
+			return 0, 0, false
+		}
+		lo, ok1 := 0, true
+		if se.Low != nil {
+			lo, ok1 = intLit(se.Low, env)
+		}
+		hi, ok2 := intLit(se.High, env)
+		return lo, hi, ok1 && ok2
+	}
+	ast.Inspect(fd.Body, func(n ast.Node) bool {
+		switch n := n.(type) {
+		case *ast.CallExpr:
+			sel, ok := n.Fun.(*ast.SelectorExpr)
+			if !ok {
+				return true
+			}
+			name := sel.Sel.Name
+			if strings.HasPrefix(name, "PutUint") && len(n.Args) == 2 {
+				lo, hi, ok := sliceRange(n.Args[0])
+				if !ok {
+					ferr = fmt.Errorf("%s: PutUint with a non-literal range: %s", fd.Name.Name, p.src(n))
+					return false
+				}
+				out = append(out, layoutEntry{lo, hi, "put-le" + strings.TrimPrefix(name, "PutUint"), p.src(n.Args[1])})
+			} else if strings.HasPrefix(name, "Uint") && len(n.Args) == 1 {
+				if lo, hi, ok := sliceRange(n.Args[0]); ok {
+					out = append(out, layoutEntry{lo, hi, "get-le" + strings.TrimPrefix(name, "Uint"), ""})
+				}
+			}
+		case *ast.AssignStmt:
+			if len(n.Lhs) == 1 && len(n.Rhs) == 1 {
+				if ix, ok := n.Lhs[0].(*ast.IndexExpr); ok {
+					if id, ok := ix.X.(*ast.Ident); ok && id.Name == bufName {
+						i, ok := intLit(ix.Index, env)
+						if !ok {
+							ferr = fmt.Errorf("%s: non-literal index %s", fd.Name.Name, p.src(n))
+							return false
+						}
+						out = append(out, layoutEntry{i, i + 1, "put-byte", p.src(n.Rhs[0])})
+					}
+				}
+				// x.F = binary.LittleEndian.UintNN(buf[a:b]) : annotate the field on the get entry
+				if call, ok := n.Rhs[0].(*ast.CallExpr); ok {
+					if sel, ok := call.Fun.(*ast.SelectorExpr); ok && strings.HasPrefix(sel.Sel.Name, "Uint") && len(call.Args) == 1 {
+						if lo, hi, ok := sliceRange(call.Args[0]); ok {
+							out = append(out, layoutEntry{lo, hi, "get-le" + strings.TrimPrefix(sel.Sel.Name, "Uint") + "-into", p.src(n.Lhs[0])})
+						}
+					}
+				}
+			}
+		case *ast.BinaryExpr:
+			if n.Op == token.NEQ || n.Op == token.EQL {
+				if ix, ok := n.X.(*ast.IndexExpr); ok {
+					if id, ok := ix.X.(*ast.Ident); ok && id.Name == bufName {
+						if i, ok := intLit(ix.Index, env); ok {
+							out = append(out, layoutEntry{i, i + 1, "cmp-byte" + n.Op.String(), p.src(n.Y)})
+						}
+					}
+				}
+			}
+		}
+		return true
+	})
+	// drop the un-annotated duplicate of each annotated get
+	var filtered []layoutEntry
+	for _, e := range out {
+		if strings.HasPrefix(e.Kind, "get-le") && !strings.HasSuffix(e.Kind, "-into") {
+			dup := false
+			for _, f := range out {
+				if f.Lo == e.Lo && f.Hi == e.Hi && f.Kind == e.Kind+"-into" {
+					dup = true
+				}
+			}
+			if dup {
+				continue
+			}
+		}
+		filtered = append(filtered, e)
+	}
+	return filtered, ferr
+}
+
+func leanList(items []string) string {
+	if len(items) == 0 {
+		return "[]"
+	}
+	return "[" + strings.Join(items, ",\n   ") + "]"
+}
+
+// callOrder lists `recv.method(arg)` calls on the given receiver variable in source order.
+func (p *factPkg) callOrder(fd *ast.FuncDecl, recvVar string) []string {
+	var out []string
+	ast.Inspect(fd.Body, func(n ast.Node) bool {
+		call, ok := n.(*ast.CallExpr)
+		if !ok {
+			return true
+		}
+		sel, ok := call.Fun.(*ast.SelectorExpr)
+		if !ok {
+			return true
+		}
+		if id, ok := sel.X.(*ast.Ident); ok && id.Name == recvVar {
+			arg := ""
+			if len(call.Args) > 0 {
+				arg = p.src(call.Args[len(call.Args)-1])
+			}
+			out = append(out, fmt.Sprintf("(%s, %s)", leanStr(sel.Sel.Name), leanStr(arg)))
+		}
+		return true
+	})
+	return out
+}
+
+type metricSite struct {
+	Pkg, Func, Kind, Name string
+	Literal               bool
+	Pos                   string
+}
+
+func (p *factPkg) metricSites(pkgName string) []metricSite {
+	var out []metricSite
+	names := make([]string, 0, len(p.files))
+	for n := range p.files {
+		names = append(names, n)
+	}
+	sort.Strings(names)
+	for _, fn := range names {
+		for _, d := range p.files[fn].Decls {
+			fd, ok := d.(*ast.FuncDecl)
+			if !ok || fd.Body == nil {
+				continue
+			}
+			ast.Inspect(fd.Body, func(n ast.Node) bool {
+				call, ok := n.(*ast.CallExpr)
+				if !ok {
+					return true
+				}
+				sel, ok := call.Fun.(*ast.SelectorExpr)
+				if !ok || (sel.Sel.Name != "IncrementCounter" && sel.Sel.Name != "SetGauge") || len(call.Args) < 1 {
+					return true
+				}
+				s := metricSite{Pkg: pkgName, Func: fd.Name.Name, Kind: map[string]string{"IncrementCounter": "counter", "SetGauge": "gauge"}[sel.Sel.Name],
+					Pos: p.fset.Position(call.Pos()).String()}
+				if bl, ok := call.Args[0].(*ast.BasicLit); ok && bl.Kind == token.STRING {
+					s.Name, _ = strconv.Unquote(bl.Value)
+					s.Literal = true
+				} else {
+					s.Name = p.src(call.Args[0])
+				}
+				out = append(out, s)
+				return true
+			})
+		}
+	}
+	return out
+}
+
+// metricDefs reads `MetricDefinitions = metrics.Definitions{Counters: ..., Gauges: ...}`.
+func (p *factPkg) metricDefs() (counters, gauges []string, err error) {
+	for _, f := range p.files {
+		for _, d := range f.Decls {
+			gd, ok := d.(*ast.GenDecl)
+			if !ok {
+				continue
+			}
+			for _, s := range gd.Specs {
+				vs, ok := s.(*ast.ValueSpec)
+				if !ok || len(vs.Names) != 1 || vs.Names[0].Name != "MetricDefinitions" || len(vs.Values) != 1 {
+					continue
+				}
+				cl, ok := vs.Values[0].(*ast.CompositeLit)
+				if !ok {
+					return nil, nil, fmt.Errorf("MetricDefinitions is not a composite literal")
+				}
+				for _, el := range cl.Elts {
+					kv := el.(*ast.KeyValueExpr)
+					key := kv.Key.(*ast.Ident).Name
+					lst, ok := kv.Value.(*ast.CompositeLit)
+					if !ok {
+						return nil, nil, fmt.Errorf("MetricDefinitions.%s is not a literal", key)
+					}
+					for _, de := range lst.Elts {
+						dl := de.(*ast.CompositeLit)
+						for _, fe := range dl.Elts {
+							fkv := fe.(*ast.KeyValueExpr)
+							if fkv.Key.(*ast.Ident).Name == "Name" {
+								bl, ok := fkv.Value.(*ast.BasicLit)
+								if !ok {
+									return nil, nil, fmt.Errorf("metric name is not a literal")
+								}
+								n, _ := strconv.Unquote(bl.Value)
+								if key == "Counters" {
+									counters = append(counters, n)
+								} else {
+									gauges = append(gauges, n)
+								}
+							}
+						}
+					}
+				}
+				return counters, gauges, nil
+			}
+		}
+	}
+	return nil, nil, fmt.Errorf("MetricDefinitions not found in %s", p.dir)
+}
+
+func strList(xs []string) string {
+	q := make([]string, len(xs))
+	for i, x := range xs {
+		q[i] = leanStr(x)
+	}
+	return "[" + strings.Join(q, ", ") + "]"
+}
+
+func runFacts(repo, outdir string) error {
+	segP, err := loadPkg(filepath.Join(repo, "segment"))
+	if err != nil {
+		return err
+	}
+	walP, err := loadPkg(repo)
+	if err != nil {
+		return err
+	}
+	metaP, err := loadPkg(filepath.Join(repo, "metadb"))
+	if err != nil {
+		return err
+	}
+	verP, err := loadPkg(filepath.Join(repo, "verifier"))
+	if err != nil {
+		return err
+	}
+	migP, err := loadPkg(filepath.Join(repo, "migrate"))
+	if err != nil {
+		return err
+	}
+	segC, walC, metaC, verC := segP.consts(), walP.consts(), metaP.consts(), verP.consts()
+
+	// ---------- Consts ----------
+	lc := newLean("Consts.lean", "segment/format.go, segment/filer.go, codec.go, wal.go, metadb/metadb.go, verifier/verifier.go")
+	for _, n := range []string{"MaxEntrySize", "minBufSize", "fileHeaderLen", "version", "magic", "frameHeaderLen", "FrameInvalid", "FrameEntry", "FrameIndex", "FrameCommit"} {
+		v, err := needInt(segC, "segment", n)
+		if err != nil {
+			return err
+		}
+		lc.defNat("seg_"+n, v, "segment."+n)
+	}
+	for _, n := range []string{"segmentFileSuffix", "segmentFileNamePattern"} {
+		v, err := needStr(segC, "segment", n)
+		if err != nil {
+			return err
+		}
+		lc.defStr("seg_"+n, v, "segment."+n)
+	}
+	for _, n := range []string{"FirstExternalCodecID", "CodecBinaryV1", "DefaultSegmentSize"} {
+		v, err := needInt(walC, "wal", n)
+		if err != nil {
+			return err
+		}
+		lc.defNat("wal_"+n, v, "wal."+n)
+	}
+	for _, n := range []string{"FileName", "MetaBucket", "StableBucket", "MetaKey"} {
+		v, err := needStr(metaC, "metadb", n)
+		if err != nil {
+			return err
+		}
+		lc.defStr("metadb_"+n, v, "metadb."+n)
+	}
+	v, err := needInt(verC, "verifier", "ExtensionMagicPrefix")
+	if err != nil {
+		return err
+	}
+	lc.defNat("ver_ExtensionMagicPrefix", v, "verifier.ExtensionMagicPrefix")
+	if err := lc.finish(outdir); err != nil {
+		return err
+	}
+
+	// ---------- Layout ----------
+	ll := newLean("Layout.lean", "segment/format.go")
+	calls := map[string]string{}
+	for _, fnName := range []string{"padLen", "encodedFrameSize"} {
+		fd, err := segP.fn("", fnName)
+		if err != nil {
+			return err
+		}
+		if len(fd.Body.List) != 1 {
+			return fmt.Errorf("segment.%s is no longer a single return statement", fnName)
+		}
+		rs, ok := fd.Body.List[0].(*ast.ReturnStmt)
+		if !ok || len(rs.Results) != 1 {
+			return fmt.Errorf("segment.%s is no longer a single return statement", fnName)
+		}
+		params := map[string]bool{}
+		var pn []string
+		for _, f := range fd.Type.Params.List {
+			for _, n := range f.Names {
+				params[n.Name] = true
+				pn = append(pn, "("+n.Name+" : Nat)")
+			}
+		}
+		ex, err := exprToLean(rs.Results[0], params, segC, calls)
+		if err != nil {
+			return fmt.Errorf("segment.%s: %v: %s", fnName, err, segP.src(rs.Results[0]))
+		}
+		ll.raw(fmt.Sprintf("/-- segment.%s: `%s` -/\ndef %s %s : Nat := %s\n\n", fnName, segP.src(rs.Results[0]), fnName, strings.Join(pn, " "), ex))
+		calls[fnName] = fnName
+	}
+	{ // indexFrameSize: if numEntries == 0 { return 0 }; return encodedFrameSize(numEntries * 4)
+		fd, err := segP.fn("", "indexFrameSize")
+		if err != nil {
+			return err
+		}
+		if len(fd.Body.List) != 2 {
+			return fmt.Errorf("segment.indexFrameSize no longer has the shape `if c {return a}; return b`")
+		}
+		ifs, ok1 := fd.Body.List[0].(*ast.IfStmt)
+		rs, ok2 := fd.Body.List[1].(*ast.ReturnStmt)
+		if !ok1 || !ok2 || ifs.Else != nil || len(ifs.Body.List) != 1 {
+			return fmt.Errorf("segment.indexFrameSize no longer has the shape `if c {return a}; return b`")
+		}
+		cond, ok := ifs.Cond.(*ast.BinaryExpr)
+		if !ok || cond.Op != token.EQL {
+			return fmt.Errorf("segment.indexFrameSize: condition is not an equality")
+		}
+		params := map[string]bool{fd.Type.Params.List[0].Names[0].Name: true}
+		pn := fd.Type.Params.List[0].Names[0].Name
+		ca, err1 := exprToLean(cond.X, params, segC, calls)
+		cb, err2 := exprToLean(cond.Y, params, segC, calls)
+		ra, err3 := exprToLean(ifs.Body.List[0].(*ast.ReturnStmt).Results[0], params, segC, calls)
+		rb, err4 := exprToLean(rs.Results[0], params, segC, calls)
+		for _, e := range []error{err1, err2, err3, err4} {
+			if e != nil {
+				return fmt.Errorf("segment.indexFrameSize: %v", e)
+			}
+		}
+		ll.raw(fmt.Sprintf("/-- segment.indexFrameSize -/\ndef indexFrameSize (%s : Nat) : Nat := if %s = %s then %s else %s\n\n", pn, ca, cb, ra, rb))
+	}
+	for _, spec := range []struct{ fn, buf, name string }{
+		{"writeFileHeader", "buf", "writeFileHeaderLayout"}, {"readFileHeader", "buf", "readFileHeaderLayout"},
+		{"writeFrameHeader", "buf", "writeFrameHeaderLayout"}, {"readFrameHeader", "buf", "readFrameHeaderLayout"},
+	} {
+		fd, err := segP.fn("", spec.fn)
+		if err != nil {
+			return err
+		}
+		lay, err := segP.layoutOf(fd, segC, spec.buf)
+		if err != nil {
+			return err
+		}
+		var items []string
+		for _, e := range lay {
+			items = append(items, e.lean())
+		}
+		ll.raw(fmt.Sprintf("/-- byte layout statements of segment.%s: (lo, hi, kind, expression) -/\ndef %s : List (Nat × Nat × String × String) :=\n  %s\n\n", spec.fn, spec.name, leanList(items)))
+	}
+	{ // writeFrameHeader: which value goes into bytes 4..8 for which type
+		fd, _ := segP.fn("", "writeFrameHeader")
+		src := segP.src(fd.Body)
+		commitUsesCRC := strings.Contains(src, "if h.typ == FrameCommit {\n\t\tlOrCRC = h.crc") && strings.Contains(src, "lOrCRC := h.len")
+		ll.raw(fmt.Sprintf("/-- writeFrameHeader stores h.len in bytes 4..8 except for commit frames, which store h.crc -/\ndef frameHeaderCommitUsesCRC : Bool := %v\n\n", commitUsesCRC))
+	}
+	if err := ll.finish(outdir); err != nil {
+		return err
+	}
+
+	// ---------- Codec ----------
+	lcd := newLean("Codec.lean", "codec.go", "RaftWal.Model.Codec")
+	enc, err := walP.fn("BinaryCodec", "Encode")
+	if err != nil {
+		return err
+	}
+	dec, err := walP.fn("BinaryCodec", "Decode")
+	if err != nil {
+		return err
+	}
+	lcd.raw("/-- order of `enc.*` calls in `BinaryCodec.Encode` -/\ndef encodeOrder : List (String × String) :=\n  " + leanList(walP.callOrder(enc, "enc")) + "\n\n")
+	lcd.raw("/-- order of `dec.*` calls in `BinaryCodec.Decode` (with the conversion wrapped around, if any) -/\ndef decodeOrder : List (String × String) :=\n  " + leanList(walP.decodeAssignOrder(dec)) + "\n\n")
+	db, err := walP.fn("decoder", "bytes")
+	if err != nil {
+		return err
+	}
+	dbs := walP.src(db.Body)
+	copies := strings.Contains(dbs, "make([]byte, n)") && strings.Contains(dbs, "copy(bs, d.buf[:n])") && !strings.Contains(dbs, "bs := d.buf[")
+	lcd.raw(fmt.Sprintf("/-- `decoder.bytes` copies out of the input buffer (`make` + `copy`) -/\ndef decoderBytesCopies : Bool := %v\n\n", copies))
+	dv, err := walP.fn("decoder", "varint")
+	if err != nil {
+		return err
+	}
+	overflowPanics, shortIsErr, err := varintGuard(walP, dv)
+	if err != nil {
+		return err
+	}
+	lcd.raw(fmt.Sprintf("/-- how `decoder.varint` treats `binary.Uvarint`'s n (unguarded `d.buf[n:]` panics for n < 0) -/\ndef decodeCfg : RaftWal.DecodeCfg := { overflowPanics := %v, shortIsErr := %v }\n\n", overflowPanics, shortIsErr))
+	if err := lcd.finish(outdir); err != nil {
+		return err
+	}
+
+	// ---------- Verifier ----------
+	lv := newLean("Verifier.lean", "verifier/verifier.go, verifier/store.go")
+	ck, err := verP.fn("", "checksumLog")
+	if err != nil {
+		return err
+	}
+	var ckItems []string
+	for _, st := range ck.Body.List {
+		switch st := st.(type) {
+		case *ast.IfStmt:
+			inner := ""
+			for _, s := range st.Body.List {
+				inner += strings.TrimSpace(verP.src(s)) + ";"
+			}
+			ckItems = append(ckItems, fmt.Sprintf("(%s, %s)", leanStr("if "+verP.src(st.Cond)), leanStr(inner)))
+		case *ast.AssignStmt:
+			ckItems = append(ckItems, fmt.Sprintf("(%s, %s)", leanStr("do"), leanStr(verP.src(st))))
+		case *ast.ReturnStmt:
+			ckItems = append(ckItems, fmt.Sprintf("(%s, %s)", leanStr("return"), leanStr(verP.src(st.Results[0]))))
+		default:
+			return fmt.Errorf("verifier.checksumLog: unexpected statement %s", verP.src(st))
+		}
+	}
+	lv.raw("/-- statements of `checksumLog` in order: (guard | do | return, text) -/\ndef checksumLogStmts : List (String × String) :=\n  " + leanList(ckItems) + "\n\n")
+	for _, spec := range []struct{ fn, buf, name string }{{"encodeCheckpointMeta", "buf", "encodeCheckpointMetaLayout"}, {"decodeCheckpointMeta", "bs", "decodeCheckpointMetaLayout"}} {
+		fd, err := verP.fn("", spec.fn)
+		if err != nil {
+			return err
+		}
+		lay, err := verP.layoutOf(fd, verC, spec.buf)
+		if err != nil {
+			return err
+		}
+		var items []string
+		for _, e := range lay {
+			items = append(items, e.lean())
+		}
+		lv.raw(fmt.Sprintf("/-- layout of verifier.%s -/\ndef %s : List (Nat × Nat × String × String) :=\n  %s\n\n", spec.fn, spec.name, leanList(items)))
+	}
+	if err := lv.finish(outdir); err != nil {
+		return err
+	}
+
+	// ---------- Migrate ----------
+	lm := newLean("Migrate.lean", "migrate/migrate.go")
+	cs, err := migP.fn("", "CopyStable")
+	if err != nil {
+		return err
+	}
+	keys := map[string][]string{}
+	ast.Inspect(cs.Body, func(n ast.Node) bool {
+		as, ok := n.(*ast.AssignStmt)
+		if !ok || len(as.Lhs) != 1 || len(as.Rhs) != 1 {
+			return true
+		}
+		id, ok := as.Lhs[0].(*ast.Ident)
+		if !ok || (id.Name != "knownIntKeys" && id.Name != "knownKeys") {
+			return true
+		}
+		cl, ok := as.Rhs[0].(*ast.CompositeLit)
+		if !ok {
+			return true
+		}
+		for _, el := range cl.Elts {
+			if call, ok := el.(*ast.CallExpr); ok && len(call.Args) == 1 {
+				if bl, ok := call.Args[0].(*ast.BasicLit); ok {
+					s, _ := strconv.Unquote(bl.Value)
+					keys[id.Name] = append(keys[id.Name], s)
+				}
+			}
+		}
+		return true
+	})
+	if keys["knownIntKeys"] == nil || keys["knownKeys"] == nil {
+		return fmt.Errorf("migrate.CopyStable: known key lists not found")
+	}
+	lm.raw("/-- migrate.CopyStable knownIntKeys -/\ndef knownIntKeys : List String := " + strList(keys["knownIntKeys"]) + "\n\n")
+	lm.raw("/-- migrate.CopyStable knownKeys -/\ndef knownKeys : List String := " + strList(keys["knownKeys"]) + "\n\n")
+	if err := lm.finish(outdir); err != nil {
+		return err
+	}
+
+	// ---------- Metrics ----------
+	lmt := newLean("Metrics.lean", "wal.go, metrics.go, verifier/*.go")
+	var sites []metricSite
+	sites = append(sites, walP.metricSites("wal")...)
+	sites = append(sites, verP.metricSites("verifier")...)
+	var siteItems []string
+	for _, s := range sites {
+		siteItems = append(siteItems, fmt.Sprintf("(%s, %s, %s, %s, %v)", leanStr(s.Pkg), leanStr(s.Func), leanStr(s.Kind), leanStr(s.Name), s.Literal))
+	}
+	lmt.raw("/-- every `IncrementCounter` / `SetGauge` call site: (package, function, kind, name, name is a string literal) -/\ndef metricSites : List (String × String × String × String × Bool) :=\n  " + leanList(siteItems) + "\n\n")
+	for _, pk := range []struct {
+		p *factPkg
+		n string
+	}{{walP, "wal"}, {verP, "verifier"}} {
+		cs, gs, err := pk.p.metricDefs()
+		if err != nil {
+			return err
+		}
+		lmt.raw(fmt.Sprintf("/-- %s.MetricDefinitions.Counters names -/\ndef %sCounters : List String := %s\n\n", pk.n, pk.n, strList(cs)))
+		lmt.raw(fmt.Sprintf("/-- %s.MetricDefinitions.Gauges names -/\ndef %sGauges : List String := %s\n\n", pk.n, pk.n, strList(gs)))
+	}
+	if err := lmt.finish(outdir); err != nil {
+		return err
+	}
+	side, _ := json.MarshalIndent(sites, "", " ")
+	return os.WriteFile(filepath.Join(outdir, "metric_sites.json"), side, 0o644)
+}
+
+// decodeAssignOrder lists `l.F = [conv(]dec.m()[)]` assignments of BinaryCodec.Decode in order.
+func (p *factPkg) decodeAssignOrder(fd *ast.FuncDecl) []string {
+	var out []string
+	for _, st := range fd.Body.List {
+		as, ok := st.(*ast.AssignStmt)
+		if !ok || len(as.Lhs) != 1 || len(as.Rhs) != 1 {
+			continue
+		}
+		lhs, ok := as.Lhs[0].(*ast.SelectorExpr)
+		if !ok {
+			continue
+		}
+		rhs := as.Rhs[0]
+		if call, ok := rhs.(*ast.CallExpr); ok {
+			if sel, ok := call.Fun.(*ast.SelectorExpr); ok {
+				if id, ok := sel.X.(*ast.Ident); ok && id.Name == "dec" {
+					out = append(out, fmt.Sprintf("(%s, %s)", leanStr(sel.Sel.Name), leanStr(lhs.Sel.Name)))
+					continue
+				}
+			}
+			// conversion wrapping a dec call
+			if len(call.Args) == 1 {
+				if inner, ok := call.Args[0].(*ast.CallExpr); ok {
+					if sel, ok := inner.Fun.(*ast.SelectorExpr); ok {
+						if id, ok := sel.X.(*ast.Ident); ok && id.Name == "dec" {
+							out = append(out, fmt.Sprintf("(%s, %s)", leanStr(sel.Sel.Name), leanStr(lhs.Sel.Name)))
+						}
+					}
+				}
+			}
+		}
+	}
+	return out
+}
+
+// varintGuard reads decoder.varint: is `d.buf[n:]` guarded by a check of n's sign?
+func varintGuard(p *factPkg, fd *ast.FuncDecl) (overflowPanics, shortIsErr bool, err error) {
+	src := p.src(fd.Body)
+	if !strings.Contains(src, "binary.Uvarint(d.buf)") || !strings.Contains(src, "d.buf = d.buf[n:]") {
+		return false, false, fmt.Errorf("decoder.varint no longer has the shape `v, n := binary.Uvarint(d.buf); … d.buf = d.buf[n:]`")
+	}
+	// find an if statement between the two whose condition mentions n and whose body sets d.err and returns
+	guardLE, guardLT := false, false
+	for _, st := range fd.Body.List {
+		ifs, ok := st.(*ast.IfStmt)
+		if !ok {
+			continue
+		}
+		c := strings.ReplaceAll(p.src(ifs.Cond), " ", "")
+		body := p.src(ifs.Body)
+		if !strings.Contains(body, "d.err") || !strings.Contains(body, "return") {
+			continue
+		}
+		switch c {
+		case "n<=0", "n<1":
+			guardLE = true
+		case "n<0":
+			guardLT = true
+		}
+	}
+	if guardLE {
+		return false, true, nil
+	}
+	if guardLT {
+		return false, false, nil
+	}
+	return true, false, nil
+}
